@@ -12,6 +12,7 @@ import zlib
 import vlib
 
 PROPS = "Properties_C16"
+NDEBUG_TOO = True     # the library\'s normal build compiles assertions out: the same cases run against that build too
 # leaf functions / constants of environment_posix.c are re-translated from the C source on every run (tools/translate_leaf.py ->
 # coq/gen/Leaf.v, Constants.v) and re-proved equal to the model's (coq/Properties_leaf_env.v)
 EXTRA_PROPS = ["Properties_leaf_env"]
